@@ -195,7 +195,7 @@ def mutable_identity(x):
 
 
 def make_structure(rng, with_tempbox):
-  containers = ['list', 'tuple', 'dict', 'point', 'pair', 'defaultdict']
+  containers = ['list', 'tuple', 'dict', 'point', 'pair', 'defaultdict', 'pointsub']
   if with_tempbox:
     containers += ['tempbox', 'tempbox']
   opts = gen.Opts(max_nodes=rng.choice([4, 8, 12]), max_depth=rng.choice([3, 4, 5]),
